@@ -629,6 +629,22 @@ func TestVerif_WireTable(t *testing.T) {
 				return r.fxDec
 			})
 		}
+		if (r.fxDec == "" || r.fxDec == "n/a") && ((c.P.T >= 3 && c.P.T <= 20) || c.P.T == 200) {
+			// the type-dispatching request decoder of filexfer yields a packet of THIS type and re-encodes to the same bytes
+			r.fxDec = catch(func() string {
+				var rp sshfx.RequestPacket
+				if err := rp.UnmarshalBinary(bs(c.Bytes)[4:]); err != nil {
+					return "request decoder: " + err.Error()
+				}
+				if rp.Request == nil || int(rp.Request.Type()) != c.P.T {
+					return fmt.Sprintf("request decoder: dispatched to type %v", rp.Request.Type())
+				}
+				if b, err := rp.MarshalBinary(); err != nil || !bytes.Equal(b, bs(c.Bytes)) {
+					return "request decoder: re-encoding differs"
+				}
+				return r.fxDec
+			})
+		}
 		tr.emit("WireCase", kv{"i": i, "t": c.P.T, "typ": typName(byte(c.P.T)), "pkgenc": r.pkgEnc, "pkgdec": r.pkgDec, "fxenc": r.fxEnc, "fxdec": r.fxDec, "len": len(c.Bytes)})
 	}
 }
